@@ -4,6 +4,7 @@ import Model.EncodeFigure
 import Model.EncodeDomainMore
 import Model.EncodeAcceptedMore
 import Proofs.EncodeTotalFig
+import Proofs.EncodeTotalIff
 import Props.C01total
 import Props.C01encmore
 /-!
@@ -32,7 +33,8 @@ Hypotheses (decidable, `Model/EncodeAcceptedMore.lean`; every clause names its v
   the figure path).
 
 Conclusions: the multi-section encoder returns a document, or raises `ValueError` and the group_by keys of SOME SECTION
-are not contiguous; the figure encoder returns a document — it has no refusal.  No hypothesis beyond the three of the
+are not contiguous — and it refuses exactly then (`C01_encodeM_refused_iff`, `C01_encodeM_encodes_iff`; likewise the
+single-section encoder, `C01_encode_refused_iff`); the figure encoder returns a document — it has no refusal.  No hypothesis beyond the three of the
 single-section theorem was forced: the multi-section path adds no failure of its own (the per-section documents only
 drop texts and page borders, the colour table is built from validated colours of all sections), and on the figure path
 every remaining failure of the model (`IndexError` of an empty size list, `ValueError` of an unknown suffix, the empty
@@ -89,6 +91,45 @@ theorem C01_groupKeysContiguousM_decidable (d : MDoc) :
     exact Classical.byContradiction fun hn => h ⟨sd, hsd, hn⟩
   · intro h ⟨sd, hsd, hn⟩
     exact hn (h sd hsd)
+
+/-- **the refusal is decided by the data alone**: on an accepted configuration of the quantifier the multi-section
+encoder returns a document if and only if the group_by keys of every section are contiguous … -/
+theorem C01_encodeM_encodes_iff (measure : Measure) (d : MDoc) (ha : AcceptedM d) (hs : ShapesInQuantifierM d)
+    (hm : MeasureOkM measure d) :
+    (∃ g, encodeM measure d = .ok g) ↔ ∀ sd ∈ sectionDocs d, GroupKeysContiguous sd :=
+  ⟨fun ⟨_, hg⟩ => encodeM_ok_contiguous measure ha hs hm hg, C01_encodeM_total_contiguous measure d ha hs hm⟩
+
+/-- … and refuses, with `ValueError`, if and only if the keys of some section are not -/
+theorem C01_encodeM_refused_iff (measure : Measure) (d : MDoc) (ha : AcceptedM d) (hs : ShapesInQuantifierM d)
+    (hm : MeasureOkM measure d) :
+    encodeM measure d = .error "ValueError" ↔ ∃ sd ∈ sectionDocs d, ¬ GroupKeysContiguous sd := by
+  constructor
+  · intro he
+    rcases C01_encodeM_total measure d ha hs hm with ⟨g, hg⟩ | ⟨_, h⟩
+    · rw [hg] at he; cases he
+    · exact h
+  · rintro ⟨sd, hsd, hn⟩
+    rcases C01_encodeM_total measure d ha hs hm with ⟨g, hg⟩ | ⟨he, _⟩
+    · exact absurd (encodeM_ok_contiguous measure ha hs hm hg sd hsd) hn
+    · exact he
+
+/-- the same for the single-section encoder model (complement of `Props.C01total.C01_encode_total`) -/
+theorem C01_encode_encodes_iff (measure : Measure) (d : Doc) (ha : Accepted d) (hs : ShapesInQuantifier d)
+    (hm : MeasureOk measure d) : (∃ g, encode measure d = .ok g) ↔ GroupKeysContiguous d :=
+  ⟨fun ⟨_, hg⟩ => encode_ok_contiguous measure ha hs hm hg,
+   Props.C01total.C01_encode_total_contiguous measure d ha hs hm⟩
+
+theorem C01_encode_refused_iff (measure : Measure) (d : Doc) (ha : Accepted d) (hs : ShapesInQuantifier d)
+    (hm : MeasureOk measure d) : encode measure d = .error "ValueError" ↔ ¬ GroupKeysContiguous d := by
+  constructor
+  · intro he hc
+    obtain ⟨g, hg⟩ := Props.C01total.C01_encode_total_contiguous measure d ha hs hm hc
+    rw [hg] at he
+    cases he
+  · intro hn
+    rcases Props.C01total.C01_encode_total measure d ha hs hm with ⟨g, hg⟩ | ⟨he, _⟩
+    · exact absurd (encode_ok_contiguous measure ha hs hm hg) hn
+    · exact he
 
 /-- **C01 for the multi-section encoder model, both clauses** -/
 theorem C01_encodeM_total_wellformed (measure : Measure) (d : MDoc) (ha : AcceptedM d) (hs : ShapesInQuantifierM d)
